@@ -9,7 +9,7 @@ from sa.load import AnalysisError, Repo, loc
 from sa.report import Run
 from spec import formulas
 
-from .common import eq_term, events, evaluate_global, returns, show, term_of
+from .common import eq_term, events, evaluate_global, history_free, returns, show, term_of
 
 KERNELS = [
     'wavelength_from_tof', 'dspacing_from_tof', 'energy_from_tof', 'energy_from_wavelength',
@@ -79,6 +79,31 @@ def run(tier: str) -> Run:
             bad32 = [op for op in ops32 if op not in ALLOWED_OPS]
             r2.check(not bad32 and len(out32.value.hist) <= MAX_OPS, name + '[float32 data]', loc(fi),
                      {'ops': ops32, 'n_ops': len(out32.value.hist)}, key=f'conversion.tof:{name}[f32]')
+
+    # ---- R5: precision class over the mixed dtype grid ----------------------
+    r5 = run.rule('R5', 'with a float64 data operand, sin(theta) is evaluated in float64 in every kernel that takes '
+                        'two_theta (a float32 angle is widened first; sibling agreement)', 5)
+    import itertools
+    for name in KERNELS:
+        fi = repo.func('conversion.tof', name)
+        specs = specs_for(fi)
+        scalars = [p for p, s_ in specs.items() if s_.kind == 'scalar']
+        data = [p for p, s_ in specs.items() if s_.data]
+        for combo in itertools.product(('float64', 'float32'), repeat=len(scalars)):
+            dt = dict(zip(scalars, combo, strict=True))
+            if any(dt[p] == 'float32' for p in data) or all(d == 'float64' for d in combo):
+                continue
+            out = single_return(run_kernel(repo, fi, specs, dtypes=dt), fi)
+            low = sorted({op for _, op, d in out.value.hist if d == 'float32' and op in ('sin', 'cos', 'tan')})
+            if 'two_theta' not in specs or dt.get('two_theta') != 'float32':
+                continue
+            inst = f'{name}[' + ','.join(f'{p}={d}' for p, d in dt.items()) + ']'
+            r5.check(not low and out.value.dtype == 'float64', inst, loc(fi),
+                     {'float32_operations': low, 'result_dtype': out.value.dtype}, key=f'conversion.tof:{name}:single-precision-op')
+
+    # ---- R6: kernels are history-free -----------------------------------------
+    r6 = run.rule('R6', 'kernels write to no module-level state and hand out no memoised object', 9)
+    history_free(repo, [repo.func('conversion.tof', n) for n in KERNELS], r6)
 
     # ---- R3: graph wiring ------------------------------------------------
     r3 = run.rule('R3', 'every graph entry q -> f(params) satisfies term(f)[p := D(p)] == D(q) (one-step soundness)', 23)
